@@ -9,7 +9,7 @@ import z3
 
 from pyvc import values as V
 from pyvc.values import Sym, S, lift, OutOfSubset
-from pyvc.interp import NS
+from pyvc.interp import NS, LoopSpec
 from pyvc.registry import Contract, resolve
 from pyvc.runner import Lemma, Bounded
 from pyvc.lib import c19_models as M
@@ -104,8 +104,7 @@ def cn_post(c, k, t, quantified=True):
     c, kt = sterm(c), sterm(k)
     out = [norm(c) == norm(k), z3.Implies(present(t, kt), c == kt), z3.Or(c == kt, present(t, c))]
     if quantified:
-        out.append(forall(E_, implies(AND(present(t, E_), TO_US(E_) == norm(k), pure(E_), pure(kt)), present(t, c)),
-                          patterns=[TO_US(E_)]))
+        out.append(forall(E_, implies(AND(present(t, E_), TO_US(E_) == norm(k)), present(t, c)), patterns=[TO_US(E_)]))
     return out
 
 
@@ -120,6 +119,8 @@ def cn_setup(ctx):
     e = fresh_str(ctx, "e")
     if ctx.branch(ctx.fresh("config_is_mapping", "bool").t):
         cfg = SymDict.fresh(ctx, "config")
+        for f in M.key_listed_facts(cfg.tree(), e) + M.key_listed_facts(cfg.tree(), k):
+            ctx.assume(f)  # the witness spelling e (if stored) occurs in the dict's iteration order
     else:
         cfg = Leaf(ctx.fresh("scalar", "int"))
     return NS(k=k, config=cfg, e=e)
@@ -144,16 +145,9 @@ def cn_ensures(s):
     ]
     if s.mode == "verify":
         e = s.e
-        hit = AND(present(t, e), norm(e) == norm(k))
-        ctx = s.ctx
-        case = ("k-stored" if ctx.entails(present(t, k)) else "other-spelling-stored" if r is not s.k else "neither-stored") + \
-               (",k-with-underscore" if ctx.entails(M.has_us(k)) else ",k-without-underscore" if ctx.entails(z3.Not(M.has_us(k))) else "")
-        out += [
-            ("other-spelling-found[keys-with-one-spelling]", implies(AND(hit, pure(e), pure(k)), present(t, r))),
-            (f"other-spelling-found[any-keys][{case}]", implies(hit, present(t, r))),
-        ]
+        out += [("a-stored-spelling-of-the-key-is-found(any-spelling)", implies(AND(present(t, e), norm(e) == norm(k)), present(t, r)))]
     else:
-        out += [("other-spelling-found[keys-with-one-spelling]", cn_post(r, k, t)[-1])]
+        out += [("a-stored-spelling-of-the-key-is-found(any-spelling)", cn_post(r, k, t)[-1])]
     return out
 
 
@@ -171,7 +165,18 @@ def cn_result(ctx, s):
     return r
 
 
-C_CANON = Contract(f"{CFG}:canonical_name", setup=unpruned(cn_setup), ensures=cn_ensures, snapshot=cn_snapshot, result=cn_result)
+def cn_loop_inv(s):
+    """Scan over the stored keys: none of the keys seen so far is a spelling of k (NB `s.k` is the iteration counter; the parameter k is s.pre.k)."""
+    cfg, key = s.pre.config, s.pre.k
+    t = cfg.tree()
+    j = z3.Int("j!inv")
+    return [("no-earlier-stored-key-is-a-spelling-of-k",
+             forall(j, implies(AND(j >= 0, j < lift(s.k)), TO_US(M.KEYAT(t, j)) != norm(key)), patterns=[M.KEYAT(t, j)]))]
+
+
+C_CANON = Contract(f"{CFG}:canonical_name", setup=unpruned(cn_setup), ensures=cn_ensures, snapshot=cn_snapshot, result=cn_result,
+                   loops={0: LoopSpec(inv=cn_loop_inv)},
+                   note="the scan over the stored keys is verified by invariant (dict iteration order: trusted model NKEYS/KEYAT/KIDX)")
 
 
 # ------------------------------------------------------------------------------------------------
@@ -189,7 +194,7 @@ def fresh_value(ctx, name="value", allow_mapping=True):
     return Leaf(ctx.fresh(name, "int"))
 
 
-def as_setup(ctx, wheres=("d=store", "d=section-of-store", "d=other-dict")):
+def as_setup(ctx, wheres=("d=store", "d=section-of-store", "d=other-dict"), records=(True, False)):
     init_ctx(ctx)
     n = 1
     depth = ctx.fresh("path_length", "int")
@@ -209,20 +214,88 @@ def as_setup(ctx, wheres=("d=store", "d=section-of-store", "d=other-dict")):
             where = cand
             break
     if where == "d=store":
-        d = root
+        d, path = root, ()
     elif where == "d=section-of-store":
         sec = fresh_str(ctx, "section")
         ctx.assume(is_dict(root.tree(), sec))
-        d = SymDict(root.root, (sec.t,))
+        d, path = SymDict(root.root, (sec.t,)), (sec,)
     else:
-        d = SymDict.fresh(ctx, "d")
-    return NS(self=V.Obj(SETCLS, dict(config=root, _record=[])), keys=keys, value=fresh_value(ctx), d=d, case=f"{n}-components,{where}")
+        d, path = SymDict.fresh(ctx, "d"), (fresh_str(ctx, "prefix"),)
+    # top-level calls (d is the store) always record; calls on a section come from the recursion with either flag; the unrelated-dict
+    # case checks the state relation only
+    record = True if where == "d=store" else False if where == "d=other-dict" else records[0] if len(records) == 1 else bool(ctx.branch(ctx.fresh("record", "bool").t))
+    earlier = [("insert", (fresh_str(ctx, "earlier"),), None)]  # something recorded before this call (must stay)
+    return NS(self=V.Obj(SETCLS, dict(config=root, _record=list(earlier))), keys=keys, value=fresh_value(ctx), d=d, path=path, record=record,
+              case=f"{n}-components,{where},{'recording' if record else 'not-recording'}")
 
 
 def as_snapshot(s):
+    rec = list(s.self.fields.get("_record", [])) if isinstance(s.self, V.Obj) else []
     if isinstance(s.d, SymDict):
-        return NS(tree=s.d.tree(), writes=s.d.root.writes)
-    return NS(tree=None)
+        return NS(tree=s.d.tree(), writes=s.d.root.writes, record=rec)
+    return NS(tree=None, record=rec)
+
+
+def old_chain(t, cs):
+    """States of the dicts reached along the canonical keys cs, starting from state t (t_0 = t, t_{i+1} = C(t_i)[c_i])."""
+    out = [t]
+    for c in cs[:-1]:
+        out.append(CF(out[-1])[sterm(c)])
+    return out
+
+
+def record_post(s, cs):
+    """What the call must have recorded for __exit__ (from the property: restore replaced values, remove inserted keys):
+    record=False: nothing.  record=True: exactly one entry - ('replace', path-to-the-entry, its previous value) when the whole path
+    existed, otherwise ('insert', path-to-the-first-missing-key, None); entries recorded earlier stay."""
+    now = list(s.self.fields.get("_record", []))
+    before = s.old.record
+    kept = len(now) >= len(before) and all(a is b for a, b in zip(now, before))
+    new = now[len(before):]
+    out = [("record:earlier-entries-kept", z3.BoolVal(kept))]
+    if not s.record:
+        return out + [("record:nothing-recorded-when-not-recording", z3.BoolVal(len(new) == 0))]
+    if len(new) != 1 or not isinstance(new[0], tuple) or len(new[0]) != 3:
+        return out + [("record:exactly-one-entry", z3.BoolVal(False))]
+    op, rpath, rold = new[0]
+    prefix = tuple(s.path)
+    m = len(rpath) - len(prefix)
+    n = len(cs)
+    if op not in ("replace", "insert") or not (1 <= m <= n):
+        return out + [("record:well-formed-entry", z3.BoolVal(False))]
+    ts = old_chain(s.old.tree, cs)
+    path_ok = z3.And(*[sterm(a) == sterm(b) for a, b in zip(rpath, list(prefix) + list(cs[:m]))])
+    descended = z3.And(*[present(ts[i], cs[i]) for i in range(m - 1)]) if m > 1 else z3.BoolVal(True)
+    out += [("record:exactly-one-entry", z3.BoolVal(True)), ("record:path-is-the-canonical-path-to-the-recorded-key", path_ok),
+            ("record:every-key-above-the-recorded-one-existed", descended)]
+    c, tl = sterm(cs[m - 1]), ts[m - 1]
+    if op == "replace":
+        out += [("record:replace-only-for-an-existing-entry-at-the-full-path", z3.And(z3.BoolVal(m == n), present(tl, c))),
+                ("record:replace-holds-the-previous-value", value_matches(rold, KF(tl)[c], LF(tl)[c], CF(tl)[c]) if m == n else z3.BoolVal(False))]
+    else:
+        out += [("record:insert-names-the-first-missing-key", z3.Not(present(tl, c))), ("record:insert-carries-no-value", z3.BoolVal(rold is None))]
+    return out
+
+
+def record_apply(ctx, s, cs):
+    """Call sites: append the entry described by record_post (forks on which keys exist)."""
+    if not s.record or not isinstance(s.self, V.Obj):
+        return
+    rec = s.self.fields.setdefault("_record", [])
+    prefix, n, t = tuple(s.path), len(cs), s.d.tree()
+    for i in range(n):
+        c = sterm(cs[i])
+        if not ctx.branch(present(t, c)):
+            rec.append(("insert", prefix + tuple(cs[:i + 1]), None))
+            return
+        if i == n - 1:
+            if ctx.branch(is_dict(t, c)):
+                old = SymDict(M.DictRoot(CF(t)[c], "previous-section"))
+            else:
+                old = Leaf(Sym(LF(t)[c]))
+            rec.append(("replace", prefix + tuple(cs), old))
+            return
+        t = CF(t)[c]
 
 
 def as_canon(s):
@@ -283,10 +356,13 @@ def as_ensures(s):
     names = []
     for lvl in range(n):
         names += [f"level{lvl}:canonical:same-normalised-name", f"level{lvl}:canonical:exact-spelling-kept", f"level{lvl}:canonical:given-or-existing",
-                  f"level{lvl}:canonical:other-spelling-found[one-spelling-keys]", f"level{lvl}:siblings-untouched(whole-view)",
+                  f"level{lvl}:canonical:stored-spelling-found", f"level{lvl}:siblings-untouched(whole-view)",
                   f"level{lvl}:" + ("value-stored" if lvl == n - 1 else "section-is-a-dict")]
     assert len(names) == len(rel), (len(names), len(rel))
-    return list(zip(names, rel))
+    out = list(zip(names, rel))
+    if s.mode == "verify":
+        out += record_post(s, cs)
+    return out
 
 
 def as_modifies(ctx, s):
@@ -294,6 +370,7 @@ def as_modifies(ctx, s):
         s.d.check_live(ctx)
         t2 = z3.Const(ctx.fresh_name("tree"), TREE)
         before = s.d.tree()
+        record_apply(ctx, s, as_canon(s))
         s.d._install(ctx, t2)
         ctx.ghost.setdefault("assign_trees", []).append((before, t2, list(s.keys), s.value))
 
@@ -315,10 +392,10 @@ def as_on_raise(s, E):
     return []
 
 
-def as_contract(wheres):
-    tag = lambda s: f"[{s.case.split(',')[1]}]" if s.mode == "verify" else ""
+def as_contract(wheres, records=(True, False)):
+    tag = lambda s: f"[{','.join(s.case.split(',')[1:])}]" if s.mode == "verify" else ""
     return Contract(
-        f"{CFG}:set._assign", setup=unpruned(lambda ctx: as_setup(ctx, wheres)), ensures=lambda s: [(tag(s) + a, b) for a, b in as_ensures(s)],
+        f"{CFG}:set._assign", setup=unpruned(lambda ctx: as_setup(ctx, wheres, records)), ensures=lambda s: [(tag(s) + a, b) for a, b in as_ensures(s)],
         snapshot=as_snapshot, modifies=as_modifies,
         raises={TypeError: as_raises_typeerror}, on_raise=lambda s, E: [(tag(s) + a, b) for a, b in as_on_raise(s, E)], recursive_by_contract=True,
         note="path length enumerated 1..3; the recursive call is used through this contract (induction step at lengths 2 and 3); " + ",".join(wheres),
@@ -326,7 +403,8 @@ def as_contract(wheres):
 
 
 C_ASSIGN = as_contract(("d=store",))
-C_ASSIGN2 = as_contract(("d=section-of-store",))
+C_ASSIGN2 = as_contract(("d=section-of-store",), (True,))
+C_ASSIGN4 = as_contract(("d=section-of-store",), (False,))
 C_ASSIGN3 = as_contract(("d=other-dict",))
 
 
@@ -408,7 +486,7 @@ def get_ensures(s):
     out = []
     t_i, ok_i = s.old.tree, z3.BoolVal(True)
     for i, (c, p) in enumerate(zip(cs, parts)):
-        for lab, f in zip(("same-normalised-name", "exact-spelling-kept", "given-or-existing", "other-spelling-found[one-spelling-keys]"), cn_post(c, p, t_i)):
+        for lab, f in zip(("same-normalised-name", "exact-spelling-kept", "given-or-existing", "stored-spelling-found"), cn_post(c, p, t_i)):
             out.append((f"level{i}:canonical-in-the-dict-reached-so-far:{lab}", implies(ok_i, f)))
         ok_i = z3.And(ok_i, is_dict(t_i, c))
         t_i = CF(t_i)[sterm(c)]
@@ -546,8 +624,8 @@ def vd_setup(ctx, kinds=ALL_KINDS):
 
 def dev_request(dev, env, loose=False):
     """Specification view of a request: well-formedness, requested device class, cuda index.
-    loose=True describes the substring matching the code actually performs ('gpu' anywhere in the string); it is only
-    used for the code-faithful contract applied at call sites, never for the property-level obligations."""
+    (`loose` is a leftover of the time the code matched 'cpu' / 'gpu' by substring; it is ignored.)"""
+    loose = False  # the substring matching was fixed in /repo ('fix: device strings were matched by substring'): exact matching everywhere
     cuda, mps, cur = env.cuda.t, env.mps.t, env.cur.t
     F, T = z3.BoolVal(False), z3.BoolVal(True)
     if dev is None:
@@ -601,20 +679,13 @@ def vd_ensures(s):
     if s.mode == "apply":
         return vd_post(s.dev, s.result, env, loose=True)
     tag = f"[{s.case.split(':')[0]}]"
-    return [(tag + a, b) for a, b in [("code-faithful:accepted=>well-formed(substring-matching)-and-available", NOT(vd_rejected(s, loose=True)))] +
-            vd_post(s.dev, s.result, env, loose=True)]
+    return [(tag + a, b) for a, b in vd_post(s.dev, s.result, env)]
 
 
 def vd_rejected(s, loose=None):
-    """unavailable or malformed  <=>  rejected (by some exception).
-    Proved for the real code:  rejected => strict-rejected  and  accepted => accepted under substring matching.  Requests in the gap
-    (accepted under substring matching, malformed under exact matching: the open finding) may go either way at call sites."""
+    """unavailable or malformed  <=>  rejected (by some exception)."""
     env = M.env_of(s.ctx)
-    if loose is None and s.mode == "apply":
-        strict, lo = vd_rejected(s, loose=False), vd_rejected(s, loose=True)
-        gap_choice = s.ctx.fresh("gap_request_rejected", "bool").t
-        return z3.Or(lo, z3.And(strict, gap_choice))
-    rq = dev_request(s.dev, env, bool(loose))
+    rq = dev_request(s.dev, env)
     return z3.Not(z3.And(rq["wf"], vd_available(rq, env)))
 
 
@@ -691,20 +762,10 @@ def ckv_is_device(s):
 
 def ckv_rejected(s, loose=None):
     env = M.env_of(s.ctx)
-    if loose is None and s.mode == "apply":
-        # call sites: see vd_rejected (requests in the substring-matching gap may go either way)
-        strict, lo = ckv_rejected(s, loose=False), ckv_rejected(s, loose=True)
-        return z3.Or(lo, z3.And(strict, s.ctx.fresh("gap_request_rejected", "bool").t))
-    loose = bool(loose)
     if isinstance(s.val, (SymDict, ItemsMap)):
-        return z3.BoolVal(False) if loose else ckv_is_device(s)  # a mapping is not a device request
-    rq = dev_request(s.val, env, loose)
-    rej = z3.Not(z3.And(rq["wf"], vd_available(rq, env)))
-    if loose:
-        st = request_str(s.val)
-        if st is not None:
-            rej = z3.And(z3.Not(z3.Contains(st, SV("cpu"))), rej)
-    return z3.And(ckv_is_device(s), rej)
+        return ckv_is_device(s)  # a mapping is not a device request
+    rq = dev_request(s.val, env)
+    return z3.And(ckv_is_device(s), z3.Not(z3.And(rq["wf"], vd_available(rq, env))))
 
 
 def ckv_device_post(s, loose):
@@ -712,11 +773,6 @@ def ckv_device_post(s, loose):
     rk, rv = s.result
     rq = dev_request(s.val, env, loose)
     cpu = rq["cpu"]
-    st = request_str(s.val)
-    if loose and st is not None:
-        has_cpu = z3.Contains(st, SV("cpu"))
-        rq = dict(rq, cuda=z3.And(z3.Not(has_cpu), rq["cuda"]), mps=z3.And(z3.Not(has_cpu), rq["mps"]))
-        cpu = z3.Or(has_cpu, cpu)
     nt = sterm(rv) if M.is_strlike(rv) else None
     if nt is None:
         return [("device-value-is-a-string", z3.BoolVal(False))]
@@ -739,11 +795,10 @@ def ckv_ensures(s):
     if s.mode == "apply":
         if rv is s.val:
             return out
-        return out + [(a, implies(isdev, b)) for a, b in ckv_device_post(s, loose=True)]
+        return out + [(a, implies(isdev, b)) for a, b in ckv_device_post(s, loose=False)]
     if s.case == "other-key":
         return out + [("other-keys:value-returned-unchanged", z3.BoolVal(rv is s.val))]
-    out += [("code-faithful:accepted=>well-formed(substring-matching)-and-available", NOT(ckv_rejected(s, loose=True)))]
-    out += [("code-faithful:" + a, b) for a, b in ckv_device_post(s, loose=True)]
+    out += ckv_device_post(s, loose=False)
     return out
 
 
@@ -789,7 +844,7 @@ def fresh_item(ctx, tag, allow_device=True, allow_mapping=True):
     return k, fresh_value(ctx, f"{tag}_value", allow_mapping), "key"
 
 
-ALL_SHAPES = ("one-item", "two-items", "none", "not-a-mapping", "kw-flat", "kw-dunder", "kw-device")
+ALL_SHAPES = ("one-item", "one-item-device", "two-items", "none", "not-a-mapping", "kw-flat", "kw-dunder", "kw-device")
 
 
 def init_setup(ctx, shapes=ALL_SHAPES):
@@ -806,8 +861,12 @@ def init_setup(ctx, shapes=ALL_SHAPES):
             break
     kwargs, items, arg = {}, [], None
     case = shape
-    if shape == "one-item":
-        k, v, tag = fresh_item(ctx, "item")
+    if shape in ("one-item", "one-item-device"):
+        if shape == "one-item":
+            k, v, tag = fresh_item(ctx, "item", allow_device=False)
+        else:
+            val = fresh_device_request(ctx, "item_dev", kinds=("str", "int"))
+            k, v, tag = "device", val, "device:" + request_case(ctx, val, env, cpu_substring=True)
         items = [(k, v)]
         case += ":" + tag
     elif shape == "two-items":
@@ -847,11 +906,8 @@ def init_steps(s):
 
 
 def item_rejected(s, k, v):
-    """Caller-side view of a device request inside set()/set_device()/update_defaults():
-    raising path: the request is unavailable or malformed under exact matching; normal return: it was acceptable under substring matching
-    (between the two lies the open finding; see vd_rejected)."""
-    normal_return = hasattr(s, "result")
-    return ckv_rejected(NS(key=k, val=v, ctx=s.ctx, mode="verify"), loose=normal_return)
+    """A device request inside set() / set_device() / update_defaults() is unavailable or malformed."""
+    return ckv_rejected(NS(key=k, val=v, ctx=s.ctx, mode="verify"))
 
 
 def init_raise_cond(s):
@@ -957,6 +1013,7 @@ def init_contract(shapes):
 
 # the same function under three contract objects (one per group of argument shapes) so that they are verified in parallel
 C_INIT1 = init_contract(("one-item",))
+C_INIT4 = init_contract(("one-item-device",))
 C_INIT2 = init_contract(("two-items",))
 C_INIT3 = init_contract(("none", "not-a-mapping", "kw-flat", "kw-dunder", "kw-device"))
 
@@ -977,6 +1034,97 @@ def enter_ensures(s):
 
 
 C_ENTER = Contract(f"{CFG}:set.__enter__", setup=enter_setup, ensures=enter_ensures)
+
+# ---- __exit__: undo the recorded assignments (most recent first)
+
+
+def restore_rel(t, t2, op, rpath, rold):
+    """State relation of undoing ONE recorded entry on a store in state t (no scalar above the recorded key):
+    replace: the entry at rpath holds the recorded previous value again (missing sections on the way are re-created), siblings at every
+             level untouched;
+    insert : the key at rpath is absent again if its parent still exists (nothing happens otherwise), siblings untouched."""
+    k = sterm(rpath[0])
+    if op == "replace":
+        out = [others_unchanged(t, t2, [k])]
+        if len(rpath) == 1:
+            out.append(entry_is(t2, k, rold, rold.tree() if isinstance(rold, SymDict) else None))
+        else:
+            out.append(is_dict(t2, k))
+            out += restore_rel(z3.If(present(t, k), CF(t)[k], EMPTY), CF(t2)[k], op, rpath[1:], rold)
+        return out
+    if len(rpath) == 1:
+        return [others_unchanged(t, t2, [k]), z3.Not(present(t2, k))]
+    sub = restore_rel(CF(t)[k], CF(t2)[k], op, rpath[1:], rold)
+    unchanged = z3.And(KF(t2) == KF(t), LF(t2) == LF(t), CF(t2) == CF(t))
+    return [z3.If(present(t, k), z3.And(others_unchanged(t, t2, [k]), is_dict(t2, k), *sub), unchanged)]
+
+
+def scalar_above(t, rpath):
+    """A scalar sits above the recorded key (then undoing raises: scalars are not containers)."""
+    if len(rpath) <= 1:
+        return z3.BoolVal(False)
+    k = sterm(rpath[0])
+    return z3.Or(is_leaf(t, k), z3.And(is_dict(t, k), scalar_above(CF(t)[k], rpath[1:])))
+
+
+EXIT_SHAPES = ("nothing-recorded", "replace:depth1", "insert:depth1", "replace:depth2", "insert:depth2", "two-entries:depth1")
+
+
+def exit_setup(ctx):
+    init_ctx(ctx)
+    cfg = SymDict.fresh(ctx, "config")
+    shape = EXIT_SHAPES[-1]
+    for cand in EXIT_SHAPES[:-1]:
+        if ctx.branch(ctx.fresh("shape_" + cand, "bool").t):
+            shape = cand
+            break
+    prev = lambda n: fresh_value(ctx, n)
+    key = lambda n: ctx.fresh(n, "str")
+    if shape == "nothing-recorded":
+        rec = []
+    elif shape == "two-entries:depth1":
+        ops = ["replace" if ctx.branch(ctx.fresh(f"entry{i}_is_replace", "bool").t) else "insert" for i in range(2)]
+        rec = [(op, (key(f"k{i}"),), prev(f"previous{i}") if op == "replace" else None) for i, op in enumerate(ops)]
+        shape += ":" + "+".join(ops)
+    else:
+        op, depth = shape.split(":")
+        n = int(depth[-1])
+        rec = [(op, tuple(key(f"k{i}") for i in range(n)), prev("previous") if op == "replace" else None)]
+    return NS(self=V.Obj(SETCLS, dict(config=cfg, _record=list(rec))), exc_type=None, exc_value=None, traceback=None, cfg=cfg, rec=rec, case=shape)
+
+
+def exit_snapshot(s):
+    return NS(tree=s.cfg.tree(), writes=s.cfg.root.writes)
+
+
+def exit_ensures(s):
+    t, t2, rec = s.old.tree, s.cfg.tree(), s.rec
+    out = [("returns-None(exceptions-propagate)", z3.BoolVal(s.result is None))]
+    if not rec:
+        out.append(("nothing-recorded:store-unchanged", AND(t2 == t, s.cfg.root.writes == s.old.writes)))
+    elif len(rec) == 1:
+        op, rpath, rold = rec[0]
+        labels = ["restored:level%d:%d" % (i // 2, i) for i in range(10)]
+        rel = restore_rel(t, t2, op, list(rpath), rold)
+        out += [(f"undo-{op}:clause{i}", f) for i, f in enumerate(rel)]
+    else:
+        (op1, (k1,), o1), (op2, (k2,), o2) = rec   # recorded in this order, undone in reverse: the EARLIER entry has the last word
+        def restored(op, k, o):
+            return entry_is(t2, k, o, o.tree() if isinstance(o, SymDict) else None) if op == "replace" else z3.Not(present(t2, k))
+        out += [("two-entries:everything-else-untouched", others_unchanged(t, t2, [k1, k2])),
+                ("two-entries:earlier-entry-undone", restored(op1, k1, o1)),
+                ("two-entries:later-entry-undone-unless-it-is-the-same-key", implies(sterm(k1) != sterm(k2), restored(op2, k2, o2)))]
+    return [(f"[{s.case}]{a}", b) for a, b in out]
+
+
+def exit_raises(s):
+    return z3.Or(*[scalar_above(s.old.tree, list(r[1])) for r in s.rec]) if s.rec else z3.BoolVal(False)
+
+
+C_EXIT = Contract(f"{CFG}:set.__exit__", setup=unpruned(exit_setup), ensures=exit_ensures, snapshot=exit_snapshot,
+                  raises={TypeError: lambda s: z3.And(exit_raises(s), z3.BoolVal(any(r[0] == "replace" for r in s.rec))),
+                          AttributeError: lambda s: z3.And(exit_raises(s), z3.BoolVal(any(r[0] == "insert" for r in s.rec)))},
+                  note="record shapes: none, one replace/insert entry at depth 1 or 2, two depth-1 entries; keys, previous values, store arbitrary")
 
 # ---- set_device / get_device / device  (module-level store modelled as explicit state)
 
@@ -1014,9 +1162,8 @@ def sd_ensures(s):
         nt = sterm(names[0][1])
     else:
         nt = SV("cpu")
-    rq = dev_request(s.dev, env, loose=True)
-    st = request_str(s.dev)
-    has_cpu = z3.Contains(st, SV("cpu")) if st is not None else z3.BoolVal(False)
+    rq = dev_request(s.dev, env)
+    has_cpu = z3.BoolVal(False)
     return [
         ("stored-under-the-canonical-spelling-of-'device'", AND(*cn_post(c, "device", t, quantified=False))),
         ("device-entry-holds-the-validated-name", entry_is(t2, c, Sym(nt))),
@@ -1095,7 +1242,7 @@ def step_rel(tb, ta, k, v, g, prio, dt, quantified=True):
     """One item (k, v) of `new` applied to a dict in state tb gives state ta; g = ghost(c = canonical key, mid = states, sub = nested ghosts)."""
     c = g["c"]
     ct = sterm(c)
-    out = [("canonical:" + n, f) for n, f in zip(("same-normalised-name", "exact-spelling-kept", "given-or-existing", "other-spelling-found[one-spelling-keys]"),
+    out = [("canonical:" + n, f) for n, f in zip(("same-normalised-name", "exact-spelling-kept", "given-or-existing", "stored-spelling-found"),
                                                   cn_post(c, k, tb, quantified))]
     out.append(("siblings-untouched(whole-view)", others_unchanged(tb, ta, [c])))
     if isinstance(v, (ItemsMap, SymDict)):
@@ -1208,15 +1355,8 @@ def up_setup(ctx, prio, shapes=UP_SHAPES):
 
 
 def up_requires(s):
-    """`defaults` is None or a mapping, and holds no scalar where `new` holds a section (otherwise `k in defaults` is a TypeError)."""
-    out = [("defaults-is-none-or-a-mapping", z3.BoolVal(s.defaults is None or isinstance(s.defaults, (SymDict, ItemsMap))))]
-    if isinstance(s.defaults, SymDict) and isinstance(s.new, ItemsMap):
-        dt = s.defaults.tree()
-        for k, v in s.new.items():
-            if isinstance(v, (ItemsMap, SymDict)):
-                out.append(("defaults-has-no-scalar-where-new-has-a-section",
-                            forall(E_, implies(TO_US(E_) == norm(k), NOT(is_leaf(dt, E_))), patterns=[TO_US(E_)])))
-    return out
+    """No precondition: since 'fix: update_defaults raised TypeError half-way' a scalar (or None) `defaults` simply means "no defaults"."""
+    return []
 
 
 def mark_external(m):
@@ -1286,10 +1426,10 @@ def up_ensures(s):
         # property level: the current default of the key may be stored under the other spelling (witness e from setup)
         (k, v), e, c, dt = s.new.items()[0], s.default_spelling, gs[0]["c"], s.defaults.tree()
         match = AND(present(dt, e), norm(e) == norm(k), same_entry(dt, e, t, c))
+        # "the current default of the key" is well defined when the defaults hold ONE spelling of the name (which is what merge() builds)
+        only = forall(E_, implies(AND(present(dt, E_), TO_US(E_) == norm(k)), E_ == sterm(e)), patterns=[TO_US(E_)])
         out += [("unchanged-default-is-replaced[default-stored-under-the-store's-spelling]", implies(AND(match, sterm(e) == sterm(c)), entry_is(t2, c, v))),
-                # (defaults that hold BOTH spellings of the key are left out: `not present(dt, c)`)
-                (f"unchanged-default-is-replaced[default-stored-under-the-other-spelling-only][{nd_path_tag(s.ctx, t, dt, c)}]",
-                 implies(AND(match, NOT(present(dt, c)), pure(e), pure(k), pure(c)), entry_is(t2, c, v)))]  # (keys mixing '-' and '_': see canonical_name)
+                ("unchanged-default-is-replaced[default-stored-under-any-single-spelling]", implies(AND(match, only), entry_is(t2, c, v)))]
     return [(f"[{s.case}{',defaults-given' if s.defaults is not None else ''}]{a}", b) for a, b in out]
 
 
@@ -1464,15 +1604,7 @@ def ud_setup(ctx, shapes=("flat1", "nested1", "device"), ns=(0, 1, 2)):
 
 
 def ud_requires(s):
-    """Successive defaults are shape compatible: the accumulated defaults hold no scalar where the new defaults hold a section."""
-    out = []
-    if s.mode == "verify":
-        ft = fold_defaults([d.tree() for d in s.defaults])
-        for k, v in s.items:
-            if isinstance(v, (ItemsMap, SymDict)):
-                out.append(("accumulated-defaults-have-no-scalar-where-new-has-a-section",
-                            forall(E_, implies(TO_US(E_) == norm(k), NOT(is_leaf(ft, E_))), patterns=[TO_US(E_)])))
-    return out
+    return []
 
 
 def ud_snapshot(s):
@@ -1566,7 +1698,7 @@ def rf_ensures(s):
 C_REFRESH = Contract(f"{CFG}:refresh", setup=unpruned(rf_setup), ensures=rf_ensures, snapshot=rf_snapshot,
                      note="0..3 opaque defaults; collect() is a parameter (empty, or an arbitrary user mapping); update is used through its contract")
 
-CONTRACTS = [C_CANON, C_ASSIGN, C_ASSIGN2, C_ASSIGN3, C_GET, C_VALIDATE, C_VALIDATE2, C_CHECK, C_CHECK2, C_INIT1, C_INIT2, C_INIT3, C_ENTER, C_SETDEV, C_GETDEV, C_DEVICE,
+CONTRACTS = [C_CANON, C_ASSIGN, C_ASSIGN2, C_ASSIGN3, C_ASSIGN4, C_GET, C_VALIDATE, C_VALIDATE2, C_CHECK, C_CHECK2, C_INIT1, C_INIT2, C_INIT3, C_INIT4, C_ENTER, C_EXIT, C_SETDEV, C_GETDEV, C_DEVICE,
              C_UPD_NEW, C_UPD_NEW2, C_UPD_OLD, C_UPD_OLD2, C_UPD_ND, C_UPD_ND2, C_MERGE, C_UPDDEF, C_UPDDEF2, C_UPDDEF3, C_REFRESH]
 
 
@@ -1609,23 +1741,21 @@ def lemma_one_level_lww(ctx):
 
     def inv(tt):
         # Inv(tt) instantiated at the named strings (ground instances of the two universally quantified clauses)
-        return [implies(AND(present(tt, x), present(tt, y), norm(x) == norm(y)), x == y) for x in names for y in names if x is not y] + \
-               [implies(present(tt, x), pure(x)) for x in names]
+        return [implies(AND(present(tt, x), present(tt, y), norm(x) == norm(y)), x == y) for x in names for y in names if x is not y]
 
     def cn_inst(cc, kk, tt):
         # canonical_name's post with its quantified clause instantiated at the named strings
-        return cn_post(cc, kk, tt, quantified=False) + [implies(AND(present(tt, x), norm(x) == norm(kk), pure(x), pure(kk)), present(tt, cc)) for x in names]
+        return cn_post(cc, kk, tt, quantified=False) + [implies(AND(present(tt, x), norm(x) == norm(kk)), present(tt, cc)) for x in names]
 
     cn_post_ = cn_inst
-    base = _facts(*names) + inv(t) + cn_inst(c, k, t) + [pure(k)]
+    base = _facts(*names) + inv(t) + cn_inst(c, k, t)
     assign = [others_unchanged(t, t2, [c]), KF(t2)[c] == LEAF, LF(t2)[c] == v]   # _assign, level of the last path component
     return [
         ("canonical-name-is-THE-stored-spelling", base + [present(t, e0), norm(e0) == norm(k)], c == e0),
         ("new-spelling-only-when-no-spelling-is-stored", base + [z3.Not(present(t, c)), present(t, e0)], norm(e0) != norm(k)),
         ("Inv-preserved:one-spelling-per-name", base + assign + [present(t2, e1), present(t2, e2), norm(e1) == norm(e2)], e1 == e2),
-        ("Inv-preserved:stored-keys-use-one-spelling", base + assign + [present(t2, e1)], pure(e1)),
-        ("read-your-write-through-any-spelling", base + assign + [pure(q), norm(q) == norm(k)] + cn_inst(cq2, q, t2), AND(cq2 == c, KF(t2)[cq2] == LEAF, LF(t2)[cq2] == v)),
-        ("other-names-unaffected", base + assign + [pure(q), norm(q) != norm(k)] + cn_inst(cq, q, t) + cn_inst(cq2, q, t2), AND(cq2 == cq, entries_equal(t, cq, t2, cq2))),
+        ("read-your-write-through-any-spelling", base + assign + [norm(q) == norm(k)] + cn_inst(cq2, q, t2), AND(cq2 == c, KF(t2)[cq2] == LEAF, LF(t2)[cq2] == v)),
+        ("other-names-unaffected", base + assign + [norm(q) != norm(k)] + cn_inst(cq, q, t) + cn_inst(cq2, q, t2), AND(cq2 == cq, entries_equal(t, cq, t2, cq2))),
     ]
 
 
@@ -1672,7 +1802,47 @@ def lemma_new_defaults_spelling(ctx):
     return [("default-under-the-store's-spelling", hyp + [match, e == c], entry_is(ta, c, v))]
 
 
+def lemma_with_restores(ctx):
+    """`with set({key: v})`: from _assign's contract (state relation + what it records) and __exit__'s contract (restore_rel):
+    after the block the written path looks as before (same entry, or absent again) and no sibling at any level changed."""
+    t, t1, t2 = z3.Const("t", TREE), z3.Const("t_inside", TREE), z3.Const("t_after", TREE)
+    k0, k1, c0, c1, sib = map(z3.String, ("k0", "k1", "c0", "c1", "sib"))
+    v = Leaf(z3.Int("v"))
+    facts = _facts(k0, k1, c0, c1) + list(M.EMPTY_FACTS)
+
+    def same_view(ta, tb, c):
+        return z3.And(KF(ta)[c] == KF(tb)[c], z3.Implies(KF(ta)[c] == LEAF, LF(ta)[c] == LF(tb)[c]), z3.Implies(KF(ta)[c] == DICT, CF(ta)[c] == CF(tb)[c]))
+
+    def previous(tt, c, as_dict):
+        return SymDict(M.DictRoot(CF(tt)[c], "previous")) if as_dict else Leaf(Sym(LF(tt)[c]))
+
+    out = []
+    a1 = list(assign_rel(t, t1, [Sym(k0)], [Sym(c0)], v, None, quantified=False))
+    for kind, as_dict in (("scalar", False), ("section", True)):
+        hyp = facts + a1 + [is_dict(t, c0) if as_dict else is_leaf(t, c0)] + restore_rel(t1, t2, "replace", [Sym(c0)], previous(t, c0, as_dict))
+        out.append((f"flat-key:replaced-{kind}-is-back", hyp, same_view(t, t2, c0)))
+        out.append((f"flat-key:replaced-{kind}:siblings-as-before", hyp + [sib != c0], entries_equal(t, sib, t2, sib)))
+    hyp = facts + a1 + [z3.Not(present(t, c0))] + restore_rel(t1, t2, "insert", [Sym(c0)], None)
+    out.append(("flat-key:inserted-key-is-gone", hyp, z3.Not(present(t2, c0))))
+    out.append(("flat-key:inserted:siblings-as-before", hyp + [sib != c0], entries_equal(t, sib, t2, sib)))
+    a2 = list(assign_rel(t, t1, [Sym(k0), Sym(k1)], [Sym(c0), Sym(c1)], v, None, quantified=False))
+    ch, ch2 = CF(t)[c0], CF(t2)[c0]
+    hyp = facts + a2 + [is_dict(t, c0), is_leaf(ch, c1)] + restore_rel(t1, t2, "replace", [Sym(c0), Sym(c1)], previous(ch, c1, False))
+    out += [("dotted-key:replaced-value-is-back", hyp, z3.And(is_dict(t2, c0), same_view(ch, ch2, c1))),
+            ("dotted-key:replaced:section-siblings-as-before", hyp + [sib != c1], entries_equal(ch, sib, ch2, sib)),
+            ("dotted-key:replaced:top-level-siblings-as-before", hyp + [sib != c0], entries_equal(t, sib, t2, sib))]
+    hyp = facts + a2 + [z3.Not(present(t, c0))] + restore_rel(t1, t2, "insert", [Sym(c0)], None)
+    out += [("dotted-key:inserted-section-is-gone", hyp, z3.Not(present(t2, c0))),
+            ("dotted-key:inserted-section:siblings-as-before", hyp + [sib != c0], entries_equal(t, sib, t2, sib))]
+    hyp = facts + a2 + [is_dict(t, c0), z3.Not(present(ch, c1))] + restore_rel(t1, t2, "insert", [Sym(c0), Sym(c1)], None)
+    out += [("dotted-key:inserted-key-is-gone-from-its-section", hyp, z3.And(is_dict(t2, c0), z3.Not(present(ch2, c1)))),
+            ("dotted-key:inserted-key:section-siblings-as-before", hyp + [sib != c1], entries_equal(ch, sib, ch2, sib)),
+            ("dotted-key:inserted-key:top-level-siblings-as-before", hyp + [sib != c0], entries_equal(t, sib, t2, sib))]
+    return out
+
+
 LEMMAS = [
+    Lemma("with-statement-restores-previous-values", lemma_with_restores, uses=["set._assign", "set.__exit__"]),
     Lemma("one-level-last-writer-wins", lemma_one_level_lww, uses=["canonical_name", "set._assign"]),
     Lemma("nested-assignment-keeps-siblings", lemma_nested_lww, uses=["set._assign", "get"]),
     Lemma("refresh-restores-accumulated-defaults", lemma_refresh, uses=["refresh", "merge", "update_defaults"]),
@@ -1682,6 +1852,9 @@ LEMMAS = [
 TRUSTED = [
     "dict model (pyvc/lib/c19_models.py): a nested dict is a tree state with per-key kind / scalar identity / nested state; d[k]=v is an array store; "
     "handles read through the root (reference semantics for tree-shaped stores); a dict literal {} is the empty state; dict.clear / dict.get / `in` / truthiness",
+    "dict iteration order: the keys of a dict in state t are KEYAT(t,0..NKEYS(t)-1); every listed key is present and every present key is listed "
+    "(used for the scan in canonical_name, verified by loop invariant); dict.setdefault / dict.pop; overwriting or removing an entry detaches "
+    "the handles into the old nested dict (they keep denoting that dict object)",
     "str model: ==, substring `in`, lower (idempotent, length preserving, fixes cpu/mps/gpu/cuda and their prefixes), split('.') (join(parts)==s, no '.' in parts, "
     "<=3 components enumerated), single-character replace('_','-') / replace('-','_') as uninterpreted maps with the ground facts STRING_FACTS "
     "(validated on every run against CPython on all strings of length <=5 over {a,-,_,.}), replace('__','.') uninterpreted",
@@ -1695,14 +1868,14 @@ TRUSTED = [
     "pyvc engine (AST interpreter, call-by-contract, path exploration), z3, cvc5",
 ]
 ASSUMPTIONS = [
+    "BOUND __exit__: the record holds no entry, one replace/insert entry at depth 1 or 2, or two depth-1 entries (keys, previous values and store arbitrary); "
+    "the composition `with set({key: v})` = _assign then __exit__ is a lemma for flat and two-component keys",
     "BOUND path/key shape: dotted keys have <=3 components (set._assign: path length 1..3, each step proved through the contract of the shorter path); "
     "set(): mapping form with 1 or 2 items (2 items: <=2 components, scalar values), keyword form with three representative names",
     "BOUND `new` of update(): shapes flat1, flat2, nested1, nested1+flat1, nested2, opaque-section, empty ('new-defaults': flat1, nested1, opaque-section) - "
     "key strings, values, the old dict and the defaults are arbitrary; update_defaults: one scalar item / one section with one item / {'device': request}; 0..2 earlier defaults; refresh: 0..3 defaults",
     "configuration values are opaque scalars (identity only) or nested mappings; scalar values are not containers (a str value behaves the same for get, shown by the bounded replay)",
     "keys other than 'device' inside update()/update_defaults() shapes (the 'device' key has its own shapes); device requests: str, int, None, torch.device, and 'any other object'",
-    "PRECONDITION of update (priority 'new-defaults'): the defaults hold no scalar where `new` holds a section (otherwise the real code raises TypeError at `k in defaults`; "
-    "reachable by set({'s': {'k': 1}}) on a store whose default for 's' is a truthy scalar followed by update_defaults({'s': {'k': 2}}))",
     "set() with a mapping VALUE replaces the whole section (last writer wins for that key); this is taken to satisfy the statement - "
     "'nested updates merge' is read as a claim about update / update_defaults / dotted-path set, which are proved not to drop siblings",
     "module-level state (`config`, `defaults`, NUM_DEVICES, cp) is modelled as explicit symbolic state; check_key_val reads config['has_cupy'] (required to be a stored scalar)",
@@ -2123,7 +2296,7 @@ def klass_history(inp, res):
         return "update_defaults:scalar-default-where-new-defaults-have-a-section"
     k = klass_spelling(keys)
     if k == "any" and other_spelling_in_defaults(set_keys + def_keys, def_keys):
-        return "new-defaults:default-stored-under-another-spelling"
+        return "new-defaults:section-equal-to-its-default-up-to-nested-spelling"
     return k
 
 
@@ -2173,7 +2346,7 @@ def fam_update(tier="quick", seed=0):
 def klass_update(inp, res):
     k = klass_spelling(_dict_keys(inp["old"]) + _dict_keys(inp["new"]) + _dict_keys(inp.get("defaults")))
     if k == "any" and inp.get("priority") == "new-defaults" and other_spelling_in_defaults(_dict_keys(inp["old"]) + _dict_keys(inp["new"]), _dict_keys(inp.get("defaults"))):
-        return "new-defaults:default-stored-under-another-spelling"
+        return "new-defaults:section-equal-to-its-default-up-to-nested-spelling"
     return k
 
 
@@ -2253,15 +2426,15 @@ for _c, _rt, _fam, _conc in (
         (C_CHECK, rt_device, fam_device_via("check_key_val"), conc_device("val", "check_key_val")),
         (C_CHECK2, rt_device, fam_device_via("check_key_val"), conc_device("val", "check_key_val")),
         (C_SETDEV, rt_device, fam_device_via("set"), conc_device("dev", "set")),
-        (C_INIT1, rt_history, fam_history_small, None), (C_INIT2, rt_history, fam_history_small, None), (C_INIT3, rt_history, fam_history_small, None),
-        (C_ASSIGN, rt_history, fam_history_small, None), (C_ASSIGN2, rt_history, fam_history_small, None), (C_ASSIGN3, rt_history, fam_history_small, None),
+        (C_INIT1, rt_history, fam_history_small, None), (C_INIT2, rt_history, fam_history_small, None), (C_INIT3, rt_history, fam_history_small, None), (C_INIT4, rt_device, fam_device_via("set"), conc_device("item_dev", "set")),
+        (C_ASSIGN, rt_history, fam_history_small, None), (C_ASSIGN2, rt_history, fam_history_small, None), (C_ASSIGN3, rt_history, fam_history_small, None), (C_ASSIGN4, rt_history, fam_history_small, None),
         (C_GET, rt_history, fam_history_small, None), (C_UPDDEF3, rt_device, fam_device_via("update_defaults"), conc_device("dev", "update_defaults")),
         (C_GETDEV, rt_history, fam_history_small, None), (C_DEVICE, rt_history, fam_history_small, None),
         (C_UPD_NEW, rt_update, fam_update, None), (C_UPD_OLD, rt_update, fam_update, None), (C_UPD_ND, rt_update, fam_update, None),
         (C_UPD_NEW2, rt_update, fam_update, None), (C_UPD_OLD2, rt_update, fam_update, None), (C_UPD_ND2, rt_update, fam_update, None),
         (C_UPDDEF2, rt_device, fam_device_via("update_defaults"), conc_device("dev", "update_defaults")),
         (C_MERGE, rt_update, fam_update, None), (C_UPDDEF, rt_history, fam_history_small, None), (C_REFRESH, rt_history, fam_history_small, None),
-        (C_ENTER, rt_with, fam_with, None)):
+        (C_ENTER, rt_with, fam_with, None), (C_EXIT, rt_with, fam_with, None)):
     _c.rt, _c.rt_family, _c.concretize = _rt, _fam, _conc
 
 BOUNDED = [
